@@ -71,6 +71,14 @@ package store
 //@   call[carv1.HeaderSize#0] assume canonical_header: rawlen(arg0) == enclen(arg0)
 //@   effects require validated [C06,C12]: herr == nil && matches && (v1 || cur(headerInFile).DataOffset == 0 || (cur(headerInFile).DataOffset == dataOffset && cur(headerInFile).DataSize != 0))
 //@   call[CarHeader.Matches#0] assert roots [C12]: arg1.Version == 1 && arg1.Roots == roots
+//@   let hn, h2err := call[Header.ReadFrom#0]
+//@   assume sane_sizes: dataOffset < 4611686018427387904 && 0 <= psize(rw) && psize(rw) < 4611686018427387904
+//@   call[Header.ReadFrom#0] assume crash_image: result1 == nil ==> (cur(headerInFile).DataSize == psize(rw) || (cur(headerInFile).IndexOffset == 0 && cur(headerInFile).DataSize <= psize(rw))) && (cur(headerInFile).DataOffset != 0 ==> rsize(rw) >= cur(headerInFile).DataOffset + psize(rw))
+//@   note crash_image: Finalize writes the index after the payload and then the 40-byte header in one WriteAt; what an interrupted
+//@   note session leaves is a prefix of its writes, the last one cut at any byte: so either DataSize (header bytes 24..31) is
+//@   note complete, or it is a low-order prefix of the true size (hence smaller) and IndexOffset (bytes 32..39) is still zero;
+//@   note and once DataOffset is on file the whole payload is
+//@   call[iface.Truncate#0] assert keeps_acknowledged_payload [C06]: cur(headerInFile).DataSize == psize(rw)
 //@   call[iface.Truncate#0] assert size [C12]: arg1 == wrap_s64(wrap_u64(cur(headerInFile).DataOffset + cur(headerInFile).DataSize))
 //@   call[Header.WriteTo#0] assert zero_header [C06,C12]: arg0.DataOffset == 0 && arg0.DataSize == 0 && arg0.IndexOffset == 0 && arg0.Characteristics.Hi == 0 && arg0.Characteristics.Lo == 0 && wn(arg1) == 11
 //@   loop[0] invariant offset [C01,C06,C12]: sectionOffset == wrap_s64(pos(v1r) - sbase(v1r))
